@@ -341,6 +341,7 @@ func runEngineA(id string, spec Spec, tier string, seed int64) int {
 			// back (fixed entry) or was never listed
 			violations++
 			rp := saveProbeReplay(root, id, pr)
+			lines = append(lines, fmt.Sprintf("probe %s fired although the finding is not listed as open: %s", pr.Finding, pr.What))
 			lines = append(lines, fmt.Sprintf("VIOLATION property=%s replay=%s", id, rp))
 		}
 	}
